@@ -448,7 +448,7 @@ fn classify(
 
 pub fn run(ctx: &Ctx) -> Report {
     let corpus = patgen::load_corpus();
-    let n = ctx.cases(40_000, 1_500_000);
+    let n = ctx.cases(40_000, 800_000);
     crate::par_cases(ctx, 1, n, |rng, i, rep| {
         if let Some(case) = gen_case(rng, &corpus) {
             check_case(&case, i, rep);
